@@ -110,6 +110,35 @@ def run(rep, tier, seed):
     run_rules(rep, ('alloc', 'shift', 'align'))
     rules.rule_shift(rep, r'^(PoseidonGoldilocks::|Goldilocks::parcpy|Goldilocks::parSetZero|Goldilocks::exp|Goldilocks3::)', floor=0, label='hash / helper units')
     rules.rule_narrow(rep)
+    # strided / indexed operands have no extent of their own: "reads only the declared input, writes only the declared output"
+    # means exactly the cells the signature designates - the write-set and read-set obligations of C16 / C17 are obligations
+    # of this property too (a stray store that stays inside the caller's buffer is otherwise invisible)
+    from . import c16, c17
+    from ..report import Report
+    from ..specs import base_spec
+    from .. import wrapcheck
+    nfp = 0
+    for cfg in ('avx2', 'avx512'):
+        m_ = front.module(cfg)
+        for n_ in m_.find_re(ext_spec.PAT):
+            sub = Report('C18', tier)
+            wrapcheck.check_overload(sub, m_, cfg, n_, ext_spec.spec, extents_fn=c16.make_extents(m_.dem[n_]), sample=False)
+            for o in sub.obl:
+                if o['status'] != 'discharged' and ('designated' in o['detail'] or o['rule'] in ('wrapper-footprint', 'wrapper-safety')):
+                    rep.add('footprint:' + o['id'], o['status'], 'designated-cells', o['site'], o['detail'])
+            nfp += 1
+        ks = {c_['sig'] for c_ in contracts.FIELD}
+        for n_ in m_.find_re(c17.PAT):
+            if m_.dem[n_] in ks:
+                continue
+            sub = Report('C18', tier)
+            wrapcheck.check_overload(sub, m_, cfg, n_, c17.specfn, sample=False)
+            for o in sub.obl:
+                if o['status'] != 'discharged' and ('designated' in o['detail'] or o['rule'] in ('wrapper-footprint', 'wrapper-safety')):
+                    rep.add('footprint:' + o['id'], o['status'], 'designated-cells', o['site'], o['detail'])
+            nfp += 1
+    rep.ok('footprint:census', 'designated-cells', 'src', 'write set = designated cells and reads inside designated cells for %d strided / indexed overloads' % nfp)
+    rep.floor('overloads checked for designated cells', nfp, 500)
     nw = wrapper_safety(rep, 'avx2') + wrapper_safety(rep, 'avx512')
     rep.floor('routines checked for footprint-in-extent', nw, 360)
     nl = lifetimes(rep, tier)
